@@ -17,6 +17,13 @@ chk.proof_broken and the correspondence harnesses still run, so that a concrete 
 is searched for.  In addition the generated constructor is executed next to the real
 SubnetLinker object (exact comparison of best_pairs, tie-breaking included) and next to the
 model, and the generated assign_subnet next to the dictionaries observed in real Linker runs.
+
+Tie (route T, per-step bookkeeping): tools/py2coq_linkstep.py re-translates the CURRENT source of
+Subnets.__init__ / reset / compute / __iter__ / lost (subnet.py), subnet_linker_recursive
+(subnetlinker.py) and Linker.next_level / assign_links / apply_links / particle_ids (linking.py) into
+coq/Gen/linkstep.v before the proofs are re-checked (Proofs/LinkstepGen.v, LinkstepGen2.v,
+LinkstepApply.v; theorems C02_generated_subnets_init ... C02_generated_apply_links).  Same protocol:
+a translation failure or failing re-proof goes to chk.proof_broken, the correspondence runs continue.
 """
 import os, sys, math, hashlib
 import numpy as np
@@ -26,6 +33,8 @@ from common import cnat, cZ, clist
 
 TRANSLATOR = os.path.join(common.VERIF, 'tools', 'py2coq_linker.py')
 GEN = os.path.join(common.COQ, 'Gen', 'linker_core.v')
+TRANSLATOR2 = os.path.join(common.VERIF, 'tools', 'py2coq_linkstep.py')
+GEN2 = os.path.join(common.COQ, 'Gen', 'linkstep.v')
 STATE = dict(gen_ok=False)
 
 IMPORTS = "From TP Require Import Model.Assign Model.Link Model.LinkCheck."
@@ -290,22 +299,25 @@ def subnet_term(e):
 
 
 # ---- route T: translator / build ----------------------------------------------------------
-def regenerate(chk):
-    """re-run the translator on the current source; returns (ok, text-or-log)"""
-    rc, out = common.sh([sys.executable, TRANSLATOR, '--repo', common.REPO, '--stdout'], timeout=60)
+def regenerate(chk, translator=None, gen=None):
+    """re-run a translator on the current source; returns (ok, text-or-log)"""
+    translator = translator or TRANSLATOR
+    gen = gen or GEN
+    name = 'Gen/' + os.path.basename(gen)
+    rc, out = common.sh([sys.executable, translator, '--repo', common.REPO, '--stdout'], timeout=60)
     if rc != 0:
         return False, out
     with common.Lock(os.path.join(common.COQ, '.build.lock')):
-        old = open(GEN).read() if os.path.exists(GEN) else None
+        old = open(gen).read() if os.path.exists(gen) else None
         if old != out:
-            os.makedirs(os.path.dirname(GEN), exist_ok=True)
-            tmp = GEN + '.tmp%d' % os.getpid()
+            os.makedirs(os.path.dirname(gen), exist_ok=True)
+            tmp = gen + '.tmp%d' % os.getpid()
             with open(tmp, 'w') as f:
                 f.write(out)
-            os.replace(tmp, GEN)
-            chk.tally('Gen/linker_core.v rewritten (source differs from last run)')
+            os.replace(tmp, gen)
+            chk.tally('%s rewritten (source differs from last run)' % name)
         else:
-            chk.tally('Gen/linker_core.v unchanged')
+            chk.tally('%s unchanged' % name)
     return True, out
 
 
@@ -323,7 +335,7 @@ def ensure_vo(chk, targets, report):
 
 
 def build(chk):
-    """translator -> cone of Properties/C02.v -> executable comparison file.  STATE['gen_ok'] tells the
+    """translators -> cone of Properties/C02.v -> executable comparison file.  STATE['gen_ok'] tells the
     correspondence run whether the generated functions can be executed."""
     STATE['gen_ok'] = False
     ok, text = regenerate(chk)
@@ -332,15 +344,25 @@ def build(chk):
         chk.build = dict(obligations=0, discharged=0, assumptions=[], files=[], theorems=[])
         ensure_vo(chk, ['Model/LinkCheck.vo', 'Model/IterCheck.vo', 'Model/SubnetMerge.vo'], None)
         return False
+    ok2, text2 = regenerate(chk, TRANSLATOR2, GEN2)
+    if not ok2:
+        # the stale Gen/linkstep.v of an earlier run must not stand in for the current source: no proof accounting
+        chk.proof_broken('translation tools/py2coq_linkstep.py (Subnets.reset / compute / lost, subnet_linker_recursive, Linker.next_level / '
+                         'assign_links / apply_links left the translatable subset)', text2)
+        chk.build = dict(obligations=0, discharged=0, assumptions=[], files=[], theorems=[])
+        ensure_vo(chk, ['Model/LinkCheck.vo', 'Model/IterCheck.vo', 'Model/SubnetMerge.vo'], None)
+        STATE['gen_ok'] = ensure_vo(chk, ['Model/LinkerGenCheck.vo'], None) and open(GEN).read() == text
+        return False
     for attempt in range(3):
         b = chk.coq()
-        cur = open(GEN).read()
-        if cur == text:
+        if open(GEN).read() == text and open(GEN2).read() == text2:
             break
-        # another run (different TRACKPY_REPO) rewrote the generated file in between: redo
+        # another run (different TRACKPY_REPO) rewrote a generated file in between: redo
         chk.violations = [v for v in chk.violations if not v[0].startswith('proof:')]
         regenerate(chk)
-    chk.notes.append('Gen/linker_core.v sha1 %s generated from %s' % (hashlib.sha1(text.encode()).hexdigest()[:12], common.REPO))
+        regenerate(chk, TRANSLATOR2, GEN2)
+    chk.notes.append('Gen/linker_core.v sha1 %s, Gen/linkstep.v sha1 %s generated from %s'
+                     % (hashlib.sha1(text.encode()).hexdigest()[:12], hashlib.sha1(text2.encode()).hexdigest()[:12], common.REPO))
     if not b['ok']:
         ensure_vo(chk, ['Model/LinkCheck.vo', 'Model/IterCheck.vo', 'Model/SubnetMerge.vo'], None)
     STATE['gen_ok'] = ensure_vo(chk, ['Model/LinkerGenCheck.vo'], 'Gen/linker_core.v / Model/LinkerGenCheck.v (generated linking core does not build)') \
@@ -515,7 +537,11 @@ def run(chk):
                         "Gen/linker_core.v is produced by tools/py2coq_linker.py (trusted translator, fail-closed; subset and conventions in its docstring, vocabulary in "
                         "Model/PyLinker.v): dist**2 is an exact integer cost there (float rounding of cur_sum +=/-= dist**2 not modelled), sets/deques are lists, "
                         "recursion on explicit fuel; the translation is exercised by exact comparison of the generated constructor with the real SubnetLinker object "
-                        "(perfect-square costs, tie-breaking included) and of the generated assign_subnet with dictionaries observed in real Linker runs"]
+                        "(perfect-square costs, tie-breaking included) and of the generated assign_subnet with dictionaries observed in real Linker runs",
+                        "Gen/linkstep.v is produced by tools/py2coq_linkstep.py (trusted translator, fail-closed; control flow generic, every other statement a named "
+                        "primitive matched as exact source text with the meaning given in Model/PyLinkstep.v): points are indices, sets are lists iterated in a "
+                        "parameter order, the KD-tree query result and Linker.update_hash (abstracted at index level; its own translation is C11's Gen/predict.v) "
+                        "are parameters / vocabulary; tied to the real code by the movie and subnet-dictionary correspondence runs above, not executed separately"]
 
 
 def replay(chk, path):
